@@ -57,6 +57,8 @@ pub enum SVal {
 	Struct(&'static str, usize, Vec<(&'static str, SVal)>),
 	StructVariant(&'static str, u32, &'static str, usize, Vec<(&'static str, SVal)>),
 	Fail,
+	/// only as the "value" of a struct field entry `(skipfield xF)`: SerializeStruct::skip_field
+	SkipField,
 }
 
 #[derive(Clone, Debug)]
@@ -78,6 +80,10 @@ impl SVal {
 			a.iter()
 				.map(|f| {
 					let l = f.list()?;
+					if l.len() == 2 && matches!(&l[0], Sx::A(a) if a == "skipfield") {
+						// SerializeStruct::skip_field(name): what a derived impl calls for a field left out by skip_serializing_if
+						return Ok((name(&l[1])?, SVal::SkipField));
+					}
 					Ok((name(&l[0])?, SVal::from_sx(&l[1])?))
 				})
 				.collect::<Result<Vec<_>, String>>()
@@ -221,18 +227,27 @@ impl Serialize for SVal {
 			SVal::Struct(n, len, fs) => {
 				let mut m = s.serialize_struct(n, *len)?;
 				for (k, v) in fs {
-					m.serialize_field(k, v)?;
+					if matches!(v, SVal::SkipField) {
+						m.skip_field(k)?;
+					} else {
+						m.serialize_field(k, v)?;
+					}
 				}
 				m.end()
 			}
 			SVal::StructVariant(e, i, vn, len, fs) => {
 				let mut m = s.serialize_struct_variant(e, *i, vn, *len)?;
 				for (k, v) in fs {
-					m.serialize_field(k, v)?;
+					if matches!(v, SVal::SkipField) {
+						m.skip_field(k)?;
+					} else {
+						m.serialize_field(k, v)?;
+					}
 				}
 				m.end()
 			}
 			SVal::Fail => Err(S::Error::custom("verif: Serialize impl failed")),
+			SVal::SkipField => Err(S::Error::custom("verif: (skipfield ..) outside a struct field list")),
 		}
 	}
 }
